@@ -50,7 +50,8 @@ Theorem C12_pickle_vars_unfold n levels lm0 vl :
            ret (<[i := j]> lm)) lm0 vl.
 Proof. exact eq_refl. Qed.
 
-(** ** ANY file, either outcome, any threshold: the ledger is unchanged as
+(** ** ANY file, either outcome (also the [RuntimeError] of a full node
+    table, [max_nodes]), any threshold: the ledger is unchanged as
     soon as the receiver is consistent after the variable loop (with
     [levels=True] a file whose levels contradict the receiver breaks [Inv]
     in that loop, [C17b_load_junk_refuted]); [r] itself only needs a
@@ -63,8 +64,9 @@ Theorem C12_load_counts pf levels r res r' :
 Proof. exact (load_pickle_counts_from pf levels r res r'). Qed.
 
 (** ** [levels=False]: ANY file (also one that no dump has written), any
-    consistent receiver, any threshold, EITHER outcome (also a load that
-    fails midway): the receiver stays consistent, [last_len], the reordering
+    consistent receiver, any threshold, any node limit, EITHER outcome (also
+    a load that fails midway, e.g. with the [RuntimeError] of a full table,
+    [C12_counts_max_nodes]): the receiver stays consistent, [last_len], the reordering
     context, the roots and the oracle tape are unchanged ([frame]), the
     ledger is unchanged (nothing is leaked), every old reference keeps its
     meaning *)
@@ -75,7 +77,9 @@ Theorem C12_load_names_total pf r res r' :
 Proof. exact (load_pickle_false_total pf r res r'). Qed.
 
 (** ** The six round-trip theorems of [Properties/C12.v], each with the
-    ledger conclusion added (same hypotheses; no hypothesis on [last_len]) *)
+    ledger conclusion added (same hypotheses: the receiver, when it is not a
+    fresh manager, has no node limit, [max_nodes r = None], since these
+    theorems conclude that the load SUCCEEDS; no hypothesis on [last_len]) *)
 
 Theorem C12_pickle_roundtrip_fresh_counts s roots order vorder pf sd :
   Inv s → Forall (valid s) (roots_values roots) →
@@ -88,7 +92,7 @@ Theorem C12_pickle_roundtrip_fresh_counts s roots order vorder pf sd :
 Proof. exact (pickle_roundtrip_fresh_counts s roots order vorder pf sd). Qed.
 
 Theorem C12_pickle_roundtrip_same_counts s roots order vorder pf sd :
-  Inv s → Forall (valid s) (roots_values roots) →
+  Inv s → max_nodes s = None → Forall (valid s) (roots_values roots) →
   dump_pickle roots order vorder s = (Ok pf, sd) →
   sd = s ∧
   ∃ s', load_pickle pf true s = (Ok roots, s') ∧
@@ -99,7 +103,7 @@ Proof. exact (pickle_roundtrip_same_counts s roots order vorder pf sd). Qed.
 Theorem C12_pickle_roundtrip_into_counts s roots order vorder pf sd r :
   Inv s → Forall (valid s) (roots_values roots) →
   dump_pickle roots order vorder s = (Ok pf, sd) →
-  Inv r → vars r = vars s → lvl2var r = lvl2var s →
+  Inv r → max_nodes r = None → vars r = vars s → lvl2var r = lvl2var s →
   sd = s ∧
   ∃ roots' r', load_pickle pf true r = (Ok roots', r') ∧
     Inv r' ∧ extends r r' ∧ frame r r' ∧ last_len r' = last_len r ∧
@@ -110,7 +114,7 @@ Proof. exact (pickle_roundtrip_into_counts s roots order vorder pf sd r). Qed.
 Theorem C12_pickle_roundtrip_other_order_counts s roots order vorder pf sd r :
   Inv s → Forall (valid s) (roots_values roots) →
   dump_pickle roots order vorder s = (Ok pf, sd) →
-  Inv r → dom (vars s) ⊆ dom (vars r) →
+  Inv r → max_nodes r = None → dom (vars s) ⊆ dom (vars r) →
   sd = s ∧
   ∃ roots' r', load_pickle pf false r = (Ok roots', r') ∧
     Inv r' ∧ extends r r' ∧ frame r r' ∧
@@ -122,7 +126,7 @@ Proof. exact (pickle_roundtrip_other_order_counts s roots order vorder pf sd r).
 Theorem C12_pickle_roundtrip_any_counts s roots order vorder pf sd r :
   Inv s → Forall (valid s) (roots_values roots) →
   dump_pickle roots order vorder s = (Ok pf, sd) →
-  Inv r →
+  Inv r → max_nodes r = None →
   sd = s ∧
   ∃ roots' r', load_pickle pf false r = (Ok roots', r') ∧
     Inv r' ∧ frame r r' ∧ last_len r' = last_len r ∧
@@ -183,7 +187,7 @@ Example C12_counts_instance :
   let r' := snd (load_pickle ex_pf false ex_r) in
   Inv ex_s ∧ Forall (valid ex_s) (roots_values ex_roots) ∧
   dump_pickle ex_roots ex_order ex_vorder ex_s = (Ok ex_pf, ex_s) ∧
-  Inv ex_r ∧ last_len ex_r = Some 1 ∧ Counts ex_r ex_L ∧
+  Inv ex_r ∧ max_nodes ex_r = None ∧ last_len ex_r = Some 1 ∧ Counts ex_r ex_L ∧
   (∃ roots', fst (load_pickle ex_pf false ex_r) = Ok roots' ∧
              roots_rel (same_fun ex_s r') ex_roots roots') ∧
   Inv r' ∧ last_len r' = Some 1 ∧ Counts r' ex_L.
@@ -227,6 +231,24 @@ Example C12_counts_run :
   exactb ex_L rj = true ∧ last_len rj = Some 1 ∧ vars rj !! 7 = Some 4 ∧
   fst (load_pickle ex_pf true init) = Ok (RDict [(7, (-7)%Z); (3, 6%Z); (9, (-1)%Z)]) ∧
   exactb L0 init = true ∧ exactb L0 (snd (load_pickle ex_pf true init)) = true.
+Proof. by vm_compute. Qed.
+
+(** the receiver of the instance with a node limit: [max_nodes = 9] lets the
+    loader create three of the six nodes it needs (5, 6, 7: each time the
+    next free number is still below 9), then [RuntimeError]: nothing is leaked
+    ([ex_L] is exact, [C12_load_names_total]), the threshold is restored, the
+    limit is kept; with [max_nodes = 12] the load succeeds as before *)
+Example C12_counts_max_nodes :
+  let exactb (L : positive → nat) (s : st) :=
+    forallb (fun '(n, c) => bool_decide (c = indeg (succ s) n + L n))
+            (map_to_list (refc s)) in
+  let rb := ex_r <| max_nodes := Some 9%positive |> in
+  let rb' := snd (load_pickle ex_pf false rb) in
+  let rc := ex_r <| max_nodes := Some 12%positive |> in
+  fst (load_pickle ex_pf false rb) = Err ERuntime ∧
+  size (succ ex_r) = 4 ∧ size (succ rb') = 7 ∧
+  exactb ex_L rb' = true ∧ last_len rb' = Some 1 ∧ max_nodes rb' = Some 9%positive ∧
+  fst (load_pickle ex_pf false rc) = Ok (RDict [(7, (-10)%Z); (3, 8%Z); (9, (-1)%Z)]).
 Proof. by vm_compute. Qed.
 
 Print Assumptions C12_load_counts.
